@@ -11,6 +11,7 @@ from harness import gen_expr as G
 from harness.impl import H_ann, H_opt, H_PLAIN, H_tuple, SHARED_DT, V_NONE, V_OTHER, V_arr, V_tup, available
 
 SIZES = [0, 1, 2, 3, 5, 7]
+SPELLINGS = ["Optional", "T|None", "None|T", "Union[None,T]", "Union[T,None]"]
 NAME_POOL = ["a", "b", "c", "d", "n_k"]
 GROUP_POOL = ["g", "bt"]
 CLASSES = {
@@ -68,11 +69,11 @@ def gen_dims(c: Ctx, ndims: int, allow_marker: bool = True):
     for i in range(ndims):
         if i == marker_at:
             if rnd.random() < 0.5:
-                dims.append({"k": "anon", "s": "...", "sizes": [rnd.choice(SIZES[1:]) for _ in range(rnd.choice([0, 1, 2]))]})
+                dims.append({"k": "anon", "s": "...", "sizes": [rnd.choice(SIZES) for _ in range(rnd.choice([0, 1, 2]))]})
             else:
                 g = rnd.choice(GROUP_POOL)
                 if g not in c.gamma:
-                    c.gamma[g] = tuple(rnd.choice(SIZES[1:]) for _ in range(rnd.choice([0, 1, 1, 2])))
+                    c.gamma[g] = tuple(rnd.choice(SIZES) for _ in range(rnd.choice([0, 1, 1, 2])))
                 dims.append({"k": "star", "x": g, "s": "*" + g, "sizes": list(c.gamma[g])})
             continue
         r = rnd.random()
@@ -157,6 +158,7 @@ def gen_case(rnd: random.Random, libs=("np",), with_provider: float = 0.25, with
                     h, v = gen_tensor_hint(c, list(libs))
                     if q < 0.45:
                         h = H_opt(h)
+                        h["spell"] = rnd.choice(SPELLINGS)
                         if rnd.random() < 0.5:
                             v = V_NONE
                     elts.append(h)
@@ -167,6 +169,7 @@ def gen_case(rnd: random.Random, libs=("np",), with_provider: float = 0.25, with
         h, v = gen_tensor_hint(c, list(libs))
         if rnd.random() < optionals:
             h = H_opt(h)
+            h["spell"] = rnd.choice(SPELLINGS)
             if rnd.random() < 0.5:
                 v = V_NONE
         params.append({"name": name, "hint": h})
